@@ -57,11 +57,34 @@ package olla
 //@   trusted connection-pool bookkeeping (transport construction is outside the modelled subset); assumed to touch only the pool map
 //@   ensures res != nil && res.transport != nil
 
+// C18 / C02: the relay loop. Per iteration: contexts are checked, the read deadline is re-armed, then exactly one
+// processStreamData (one upstream Read, write, flush). In streaming mode nothing written is left unflushed when the loop
+// goes back to read; the loop only ever writes to w; the errors it returns are I/O or context errors, never one of the
+// retry handler's own classes.
 //@ func (s *Service) streamResponse
-//@   trusted the loop itself (timer, contexts, error classes) is not under contract; its body is one processStreamData call per iteration (C18 proves that helper); assumed to write only to w
-//@   modifies ghost(w).started, ghost(w).status, gvar unflushed, gvar evBroken
+//@   property C18 C02
+//@   safety
+//@   requires s != nil && s.configuration != nil
+//@   requires w != nil
+//@   requires resp != nil && resp.Body != nil
+//@   requires rlog != nil
+//@   modifies ghost(w).started, ghost(w).status, gvar unflushed, gvar evBroken, ghost remaining, ghost backing
+//@   loop 1 invariant (old(ghost(w).started) ==> ghost(w).started) && (old(evBroken) ==> evBroken) && state != nil && fresh(state) && rc != nil && readDeadline != nil
+//@   loop 1 invariant isStreaming ==> unflushed == 0 || unflushed == old(unflushed) || evBroken
 //@   ensures old(ghost(w).started) ==> ghost(w).started
 //@   ensures !errorsAs(res2, "*core.ResponseStartedError") && !errorsIs(res2, core.ErrCircuitOpen)
+
+//@ func (s *Service) handleClientDisconnect
+//@   property C18
+//@   safety
+//@   requires s != nil && state != nil && rlog != nil
+//@   modifies state.clientDisconnected, state.disconnectTime
+//@ func (s *Service) checkContexts
+//@   property C18 C02
+//@   safety
+//@   requires s != nil && s.configuration != nil && state != nil && rlog != nil && readDeadline != nil
+//@   modifies state.clientDisconnected, state.disconnectTime
+//@   ensures !errorsAs(res, "*core.ResponseStartedError") && !errorsIs(res, core.ErrCircuitOpen)
 
 //@ func (s *Service) prepareProxyRequest
 //@   property C01 C15
@@ -73,7 +96,7 @@ package olla
 
 //@ func (s *Service) proxyToSingleEndpoint
 //@   property C01 C02 C04 C15 C19
-//@   requires s != nil && r != nil && r.URL != nil && endpoint != nil && endpoint.URL != nil && stats != nil
+//@   requires s != nil && s.configuration != nil && w != nil && rlog != nil && r != nil && r.URL != nil && endpoint != nil && endpoint.URL != nil && stats != nil
 //@   requires !ghost(w).started && ghost(w).hdr != nil && breakersOK(s)
 //@   uses rse_not_circuit
 //@   modifies *
@@ -100,8 +123,10 @@ package olla
 //@   requires w != nil && rc != nil
 //@   modifies ghost(w).started, ghost(w).status, gvar unflushed, gvar evBroken
 //@   ensures old(evBroken) ==> evBroken
-//@   ensures isStreaming && res1 == nil && old(unflushed) == 0 ==> unflushed == 0 || evBroken
+//@   ensures isStreaming && res1 == nil ==> unflushed == 0 || evBroken
 //@   ensures res1 == nil ==> ghost(w).started
+//@   ensures old(ghost(w).started) ==> ghost(w).started
+//@   ensures !errorsAs(res1, "*core.ResponseStartedError") && !errorsIs(res1, core.ErrCircuitOpen)
 
 //@ func shouldStopAfterDisconnect
 //@   property C18
@@ -110,10 +135,12 @@ package olla
 //@ func (s *Service) processStreamData
 //@   property C18
 //@   safety
-//@   requires s != nil && resp != nil && resp.Body != nil && state != nil && w != nil && rc != nil && rlog != nil && len(buffer) > 0
+//@   requires s != nil && resp != nil && resp.Body != nil && state != nil && w != nil && rc != nil && rlog != nil
 //@   modifies ghost(w).started, ghost(w).status, gvar unflushed, gvar evBroken, state.lastChunk, state.lastChunkBuf, state.totalBytes, state.bytesAfterDisconnect, ghost remaining, ghost backing
 //@   ensures old(evBroken) ==> evBroken
-//@   ensures isStreaming && old(unflushed) == 0 && res == nil ==> unflushed == 0 || evBroken
+//@   ensures isStreaming && res == nil ==> unflushed == 0 || unflushed == old(unflushed) || evBroken
+//@   ensures old(ghost(w).started) ==> ghost(w).started
+//@   ensures !errorsAs(res, "*core.ResponseStartedError") && !errorsIs(res, core.ErrCircuitOpen)
 
 // ---- C19, engine scope (same clause as the sherpa engine)
 //@ func (s *Service) ProxyRequestToEndpointsWithRetry
